@@ -1,8 +1,9 @@
 """C20, bounded run-time part — conservation monitor for tickets on the real interpreter.
 
-Programs over  TICKET READ_TICKET SPLIT_TICKET JOIN_TICKETS  mixed with  PAIR UNPAIR CAR CDR SWAP DROP DUP DUP-2 SOME
+Programs over  TICKET READ_TICKET SPLIT_TICKET JOIN_TICKETS  mixed with  PAIR UNPAIR CAR CDR SWAP DROP DUP DUP-2 DUP-3 DIG-2 DUG-2 SOME
 IF_NONE{}{DROP} ASSERT_SOME NIL CONS PUSH DIP{x}  (well typed by construction, reference semantics specs/ticket_model.py)
-from six initial stacks holding tickets of this contract and of two other ticketers.  Coverage by dynamic programming
+from seven initial stacks holding tickets of this contract and of two other ticketers (plain, in pair / option / list /
+map value / or).  Coverage by dynamic programming
 over reachable stack states (all programs up to the length bound while a level stays under the frontier cap, a seeded
 subset of the level beyond) plus end-to-end walks on one persistent real stack.  After every instruction, on the REAL stack:
 
@@ -15,6 +16,8 @@ subset of the level beyond) plus end-to-end walks on one persistent real stack. 
   SPLIT_TICKET   None exactly for a zero part or parts not summing to the amount
   TICKET         None exactly for amount 0
   reference      the whole resulting stack (types and values) equals the reference step
+  no forging     PUSH of a type that holds a ticket (directly, in option / pair / list / map value / or, nested) is refused;
+                 UNPACK to such a type yields no ticket - the only source of tickets is TICKET
 """
 from vlib.runner import Check
 
@@ -59,6 +62,8 @@ def run_R(ck: Check):
     seen = {}
 
     def shape(case):
+        if case['k'] != 'step':
+            return ''
         from specs import ticket_model as M
         S = K.from_json(case['S'])
         return ' : '.join(M.ty_text(t, False) for t, _ in S[:2])
@@ -66,7 +71,9 @@ def run_R(ck: Check):
     for chunk_res in results:
         for case, rs in chunk_res:
             for r in rs:
-                if case['k'] == 'step':
+                if case['k'] == 'forge':
+                    cls = ('C20_R', 'forge', case['how'], case['i'])
+                elif case['k'] == 'step':
                     ins = K.from_json(case['ins'])
                     cls = ('C20_R', '/'.join(K.flat(ins)) if ins[0] in ('DIP', 'IF_NONE') else ins[0], shape(case), r['oid'].split('::')[1][:28])
                 else:
